@@ -109,6 +109,20 @@ def corpus():
                "reqs": [rq(0, 0, "streaming"), rq(0, 1, "connecting")],
                "action": {"kind": "delete", "cl": 0, "eps": [], "drain": [1], "unhealthy": [1]},
                "after": [rq(0, 0), rq(0, -1)]})
+    # one update removes an endpoint AND lists a server whose URL cannot be turned into a client (the sync handler
+    # fails on it): the removal must have happened all the same (first / last position; with a drain; all removed)
+    cs.append({"clusters": [cl(0, 3), cl(1, 1)],
+               "reqs": [rq(0, 0, "streaming"), rq(0, 0, "connecting"), rq(0, 1, "streaming"), rq(0, 0, "before"), rq(1, 0, "streaming")],
+               "action": {"kind": "remove", "cl": 0, "eps": [0], "bad": "last"},
+               "after": [rq(0, 0), rq(0, 1), rq(0, -1), rq(1, 0)]})
+    cs.append({"clusters": [cl(0, 2, 1)],
+               "reqs": [rq(0, 1, "streaming", 1), rq(0, 1, "connecting"), rq(0, 0, "streaming"), rq(0, -1, "before")],
+               "action": {"kind": "remove", "cl": 0, "eps": [1], "bad": "first", "drain": [1], "unhealthy": []},
+               "after": [rq(0, 1), rq(0, 0), rq(0, -1)]})
+    cs.append({"clusters": [cl(0, 2), cl(1, 2)],
+               "reqs": [rq(0, 0, "streaming"), rq(0, 1, "connecting"), rq(1, 1, "connecting")],
+               "action": {"kind": "remove", "cl": 0, "eps": [0, 1], "bad": "first"},
+               "after": [rq(0, -1), rq(1, -1)]})
     # objects that are never admitted because of a server-name collision, created and then deleted while the
     # owner of the name has requests in flight: (a) the object's NAME is an extra server name of cluster 0
     cs.append({"clusters": [cl(0, 2, 1), cl(1, 1)], "ghosts": [{"name": "c0-alias0.example.com", "aliases": []}],
@@ -179,6 +193,9 @@ def gen_scen(rng):
         action["drain"] = sorted(rng.sample(pool, rng.randint(1, len(pool))))
         action["unhealthy"] = sorted(e for e in teps if e in action["drain"] and rng.chance(1, 3))
 
+    if action["kind"] == "remove" and rng.chance(1, 4):
+        action["bad"] = rng.choice(["first", "last"])
+
     def one(phases):
         if rng.chance(3, 5):          # aim at what is going to be removed
             c = tcl
@@ -239,8 +256,9 @@ def coq_case(case, obs):
                                                       for e in c["eps"]]),
                                                clist([clist(["(%s, %s)" % (cbool(x[0]), cbool(x[1])) for x in row]) for row in c["pre"]]))
                     for c in obs["clusters"]])
-        return "(CScen %s %s %s %s %s %s %s %s %s)" % (
-            cls, ghosts, unh, clist([coq_req(r) for r in case["reqs"]]), act, clist([coq_req(dict(r, phase="plain")) for r in case["after"]]),
+        bad = {"first": 1, "last": 2}.get(a.get("bad", ""), 0)
+        return "(CScen %s %s %s %d %s %s %s %s %s %s)" % (
+            cls, ghosts, unh, bad, clist([coq_req(r) for r in case["reqs"]]), act, clist([coq_req(dict(r, phase="plain")) for r in case["after"]]),
             clist([coq_robs(o) for o in ro]), clist([coq_robs(o) for o in ao]), co)
     except (KeyError, ValueError, TypeError, IndexError):
         return "CBroken"
@@ -273,6 +291,8 @@ def stats(case, obs):
     if a["kind"] == "ghost":
         gh = case["ghosts"][a["cl"]]
         labs.append("ghost:" + ("name-is-server-name" if not gh["aliases"] else "claims-taken-server-name"))
+    if a.get("bad"):
+        labs.append("removal-with-unusable-server:" + a["bad"])
     if a.get("drain"):
         rem = a["eps"] if a["kind"] == "remove" else list(range(case["clusters"][a["cl"]]["eps"]))
         for e in a["drain"]:
